@@ -86,16 +86,16 @@ def bounded(tier, seed):
     leaves = jax.tree_util.tree_leaves({"b": 1, "a": 2, "W": 3})
     if leaves != [3, 2, 1]:
         col.add({"sig": "native::infrastructure::tree_leaves_order", "what": f"tree_leaves of a dict is no longer sorted-key order: {leaves}", "input": {}})
-    if tier != "quick":
-        for kind, keys, diag in (("NUTS", ("b", "a"), True), ("HMC", ("W", "b"), False)):
+    for kind, keys, diag in ((("HMC", ("W", "b"), False),) if tier == "quick" else (("NUTS", ("b", "a"), True), ("HMC", ("W", "b"), False))):
+        if True:
             engine_case(col, kind, keys, diag, seed)
             n += 1
     return {
         "evaluations": col.evals, "distinct_nontrivial": n,
         "rule": (f"BOUNDED: real NUTSKernel/HMCKernel._tune_slow on seeded random histories (40 draws) for {len(key_sets)} position-key tuples (non-alphabetical orders, "
                  "scalar / vector / (2,3)-matrix / length-1 parameters with very different scales, foreign keys present in the history), diagonal and dense mode; "
-                 "expected = var(ddof=1)+0.001 / cov+0.001*I of the history flattened with ravel_pytree per draw. thorough adds all permutations and two real engine runs with "
-                 f"two slow-adaptation epochs and a co-existing RW kernel. seed={seed}"),
+                 "expected = var(ddof=1)+0.001 / cov+0.001*I of the history flattened with ravel_pytree per draw. one real engine run (thorough: two, and all key permutations) with "
+                 f"two slow-adaptation epochs and a co-existing RW kernel: the matrix in force after each epoch is computed from that epoch's own stored history. seed={seed}"),
         "samples": [{"kernel": "NUTS", "position_keys": ["b", "a"], "diagonal": True}, {"kernel": "HMC", "position_keys": ["c", "W", "b"], "diagonal": False}],
         "exhaustive": False, "violations": col.violations,
     }
